@@ -34,6 +34,8 @@ def sess(st, a, stay, en):
     s = {"st": st, "a": a, "d": a + stay, "batt": "ideal"}
     if en == "large":
         s.update(e=40.0, cap=80.0, init=5.0, pmax=7.0)
+    elif en == "capped":  # the battery is full after one period, the request (6 kWh) stays open: still a not-yet-satisfied session
+        s.update(e=6.0, cap=2.0, init=1.5, pmax=7.0)
     else:  # satisfied after one or two periods at full rate (period = 5 min)
         s.update(e=0.7, cap=2.0, init=0.5, pmax=7.0)
     return s
@@ -48,6 +50,7 @@ EDIT_LIMIT = 17.3  # new limit of the last-added constraint of N2 ("lc") in two-
 def space(tier, seed):
     thorough = tier == "thorough"
     pool = [sess(st, a, sy, en) for st in ("PS-A", "PS-B", "PS-C") for a in (0, 1, 2) for sy in ((1, 2, 4) if thorough else (1, 3)) for en in ("large", "small")]
+    pool += [sess(st, a, 3, "capped") for st in ("PS-A", "PS-C") for a in (0, 1)]
     items = []
     for ss in S.session_subsets(pool, 1, 2):
         for k in (None, 1, 2, 3):
@@ -84,6 +87,12 @@ def space(tier, seed):
         for k in (None, 2, 3):
             for inner in ("max2", "unc"):
                 items.append({"net": "N2", "sessions": ss, "k": k, "recompute": [], "inner": inner, "sched": INNER[inner], "period": 5})
+    # simulations whose start is an AWARE datetime (pytz / zoneinfo) and which run across a daylight-saving change:
+    # the scheduler's clock is start + elapsed time (compared as instants)
+    for tzkind in ("pytz", "zoneinfo"):
+        for day in ([2019, 11, 3], [2020, 3, 8], [2019, 7, 1]):
+            for ss in ([dict(sess("PS-A", 0, 7, "large"), sid="ev0")], [dict(sess("PS-B", 1, 4, "large"), sid="ev0"), dict(sess("PS-C", 3, 5, "small"), sid="ev1")]):
+                items.append({"net": "N2", "sessions": ss, "k": 1, "recompute": [], "inner": "max2", "sched": INNER["max2"], "period": 30, "start": [tzkind, "America/Los_Angeles"] + day})
     if thorough:
         pool3 = [sess(st, a, sy, en) for st in ("PS-A", "PS-B", "PS-C") for a in (0, 1) for sy in (1, 3) for en in ("large", "small")]
         for ss in S.session_subsets(pool3, 3, 3):
@@ -110,6 +119,31 @@ def expected_invocations(scn):
             out.append(t)
             last = t
     return out
+
+
+def start_of(scn):
+    if not scn.get("start"):
+        return S.START
+    kind, zone, y, m, d = scn["start"]
+    from datetime import datetime
+
+    if kind == "pytz":
+        import pytz
+
+        return pytz.timezone(zone).localize(datetime(y, m, d, 0, 0))
+    import zoneinfo
+
+    return datetime(y, m, d, 0, 0, tzinfo=zoneinfo.ZoneInfo(zone))
+
+
+def same_instant(a, b):
+    if (a.tzinfo is None) != (b.tzinfo is None):
+        return False
+    if a.tzinfo is None:
+        return a == b
+    from datetime import timezone
+
+    return a.astimezone(timezone.utc) == b.astimezone(timezone.utc)
 
 
 def arr(x):
@@ -221,6 +255,8 @@ def one_run(scn, mutate):
         # the scheduler program queries its interface at registration already (peek), and - for histories
         # marked two_phase - the run is split: the later arrivals are only queued after run() returned once
         sim, rec, evs, periods = S.build_sim(scn, on_call=on_call, on_return=on_return, peek=True)
+        if scn.get("start"):
+            sim.start = start_of(scn)
         holder["evs"], holder["periods"] = evs, periods
         later = rec.later
         try:
@@ -270,8 +306,11 @@ def check_recording(scn, sim, periods, log, tpl, out):
             out("call:period-count", "invocation in period %d but %d periods already completed" % (t, c["nperiods"]), c["nperiods"], t)
         if c["current_time"] != t:
             out("call:current_time", "current_time %s in period %d" % (c["current_time"], t), c["current_time"], t)
-        if c["current_datetime"] != S.START + timedelta(minutes=scn["period"] * t):
-            out("call:current_datetime", "current_datetime %s in period %d" % (c["current_datetime"], t), str(c["current_datetime"]), str(S.START + timedelta(minutes=scn["period"] * t)))
+        # the property's formula, literally: start + t x period in Python's datetime arithmetic (for an aware start this
+        # keeps the start's tzinfo; a pytz-localized start carries a fixed offset, so this is elapsed real time)
+        want_dt = start_of(scn) + timedelta(minutes=scn["period"] * t)
+        if not same_instant(c["current_datetime"], want_dt):
+            out("call:current_datetime", "current_datetime %s in period %d, start + %d x period is %s" % (c["current_datetime"], t, t, want_dt), str(c["current_datetime"]), str(want_dt))
         if c["period"] != scn["period"] or c["max_recompute_time"] != scn["k"]:
             out("call:period-or-k", "period/max_recompute_time wrong", (c["period"], c["max_recompute_time"]), (scn["period"], scn["k"]))
         # sessions -----------------------------------------------------------------
